@@ -119,4 +119,12 @@ def size(case):
 
 
 def tables():
-    return gen_tables.check("TablesOk_C13")
+    ok, msg = gen_tables.check("TablesOk_C13")
+    if not ok:
+        return ok, msg
+    # the translated part of the model: the header word expression of create_ccsds_packet, regenerated and proved equal to
+    # Model/Header.v's header_word (Gen/FunOk_C13.v)
+    import gen_fun
+    return gen_fun.check("C13", [("expr", "space_packet_parser/packets.py", "create_ccsds_packet", "header", "gen_header_word",
+                                  ["version_number", "type", "secondary_header_flag", "apid", "sequence_flags", "sequence_count", "data"])],
+                         "FunOk_C13")
